@@ -124,5 +124,7 @@ def run(chk, prog):
     for i in r:
         chk.check(i["ok"], "R4", i["site"], "(C03/%s) %s" % (i["rule"], i["what"].split("\n")[0][:220]), "C03-%s:%s" % (i["rule"], i.get("key", "ok")))
     chk.floor("R4-rf-drift-conditions", len(r), 8)
+    for key_ in list(mm.eff.memo):
+        chk.functions.add(key_[0])
     chk.notes.append("C05: step order and grid chaining from the constructor bindings, freshness of the wake offsets at the kick, copy-without-arithmetic. "
                      "NOT decided: that the stationary profile satisfies the Haissinski relation.")
